@@ -3,7 +3,10 @@ package props
 import (
 	"errors"
 	"fmt"
+	"github.com/gregoryv/mq"
 	"io"
+	"os"
+	"os/exec"
 
 	"verif/gen"
 	"verif/link"
@@ -270,8 +273,65 @@ func c07Compare(c *sim.Ctx, frame []byte, want Outcome, got Outcome, r *link.Rea
 		hexs(frame), how, e, lg, want, got)
 }
 
+// idleReader delivers `idle` zero-length reads (0, nil) - legal for a reader,
+// if discouraged - before it starts to deliver its data.
+type idleReader struct {
+	idle int
+	data []byte
+}
+
+func (r *idleReader) Read(p []byte) (int, error) {
+	if len(p) == 0 {
+		return 0, nil
+	}
+	if r.idle > 0 {
+		r.idle--
+		return 0, nil
+	}
+	if len(r.data) == 0 {
+		return 0, io.EOF
+	}
+	n := copy(p, r.data[:1])
+	r.data = r.data[n:]
+	return n, nil
+}
+
+// C07IdleChild runs in a process of its own (a decoder that recurses per empty
+// read dies of a stack overflow, which no recover() catches): twelve million
+// zero-length reads, then a PUBACK one byte at a time. Exit status 0 = the
+// packet came back.
+func C07IdleChild() int {
+	p, err := mq.ReadPacket(&idleReader{idle: 12_000_000, data: []byte{0x40, 0x03, 0x00, 0x07, 0x10}})
+	if err != nil || p == nil {
+		fmt.Printf("after 12000000 zero-length reads: %v, %v\n", p, err)
+		return 1
+	}
+	if x, ok := p.(*mq.PubAck); !ok || x.PacketID() != 7 {
+		fmt.Printf("after 12000000 zero-length reads: %v\n", p)
+		return 1
+	}
+	return 0
+}
+
+func c07LongIdle(c *sim.Ctx) *sim.Violation {
+	cmd := exec.Command(os.Args[0], "c07-idle")
+	out, err := cmd.CombinedOutput()
+	c.Count("probe.twelve-million-zero-length-reads-before-the-first-byte(child process)")
+	if err != nil {
+		msg := string(out)
+		if len(msg) > 600 {
+			msg = msg[:600]
+		}
+		return sim.V("C07/PUBACK/long-idle/not-the-same-result", "a reader that returns (0, nil) twelve million times before it delivers the frame 4003000710 one byte at a time: the child process that called ReadPacket ended with %v\n%s", err, msg)
+	}
+	return nil
+}
+
 func runC07(c *sim.Ctx) *sim.Violation {
 	t := c.T
+	if c.Run == c07ShortRuns+1 {
+		return c07LongIdle(c)
+	}
 	if c.Run < c07ShortRuns || (c.Thorough && c.Run < 20*c07ShortRuns) {
 		return c07Exhaustive(c)
 	}
